@@ -153,6 +153,10 @@ def decEv : List SExp → Option Config.Ev
   | [atom "mk", i] => i.nat?.map .mkInverse
   | [atom "apply", i] => i.nat?.map .applyInverse
   | [atom "read"] => some .read
+  | [atom "mkcfg", i, a, b, c, d] => do
+    some (.mkConfig (← i.nat?) { solver := ← decOptNat a, throw := ← decOptNat b, options := ← decOptNat c,
+                                 callback := ← decOptNat d })
+  | [atom "enterobj", i] => i.nat?.map .enterObj
   | _ => none
 
 def encObs : Config.Obs → SExp
@@ -160,6 +164,7 @@ def encObs : Config.Obs → SExp
   | .cfg c => list [atom "cfg", ofNat c.solver, ofNat c.throw, ofNat c.options, ofNat c.callback]
   | .unknownInverse => atom "unknown"
   | .unbalancedExit => atom "unbalanced"
+  | .unknownConfig => atom "unknown-config"
 
 /-- `(config-history (ctx ev…) (ctx ev…) …)`: an interleaved history of several contexts; replies with the
 observation of every event, in order (each context starts from the defaults) -/
